@@ -627,8 +627,11 @@ def fingerprint(obj, W, depth=0, light=False, rev=False):
     # of the operations the property speaks about, so the fingerprint must not be the operation that alters the object. The
     # private geometry is peeked instead: it must stay size-less.
     g_ = getattr(obj, "__dict__", {}).get("_geometry")
-    sizeless = is_dist and not is_joint and g_ is not None and getattr(g_, "par_dim", 0) is None and \
-        _val(lambda: len(obj.get_conditioning_variables()) > 0) == ("v", True)
+    # (criterion, stable under the library's own lazy caching: conditional, no size or only the guess 1 inferable from the
+    # parameters, stored geometry size-less or 1)
+    sizeless = is_dist and not is_joint and g_ is not None and getattr(g_, "par_dim", 0) in (None, 1) and \
+        _val(lambda: len(obj.get_conditioning_variables()) > 0) == ("v", True) and \
+        _val(lambda: obj._infer_dim_of_mutable_variables() in (None, 1)) == ("v", True)
     fp["dim"] = ("v", "sizeless-conditional") if sizeless else _val(lambda: obj.dim)
     if not is_joint or is_dist:
         fp["FD"] = _val(lambda: "%s/%s" % (obj.FD_enabled, obj.FD_epsilon))
